@@ -1,6 +1,6 @@
 (* C11 - Region algebra behaves as set algebra on pixels.
    Only property theorems here, each closed by [exact] of a lemma proved elsewhere. *)
-From LV Require Import Region.RegionDefs Gen.Funs_C11 Region.RegionProofs0.
+From LV Require Import Region.RegionDefs Gen.Funs_C11 Region.RegionProofs0 Region.RegionProofs.
 Local Open Scope Z_scope.
 
 (* clipping: the function re-translated from rfbregion.c computes rectangle intersection *)
@@ -41,3 +41,77 @@ Proof. exact offset_mem. Qed.
 Theorem C11_count_iter : forall revX revY r,
   rgn_count r = Z.of_nat (length (rgn_iter revX revY r)).
 Proof. exact count_iter. Qed.
+
+(* ---- the set algebra: for all well-formed regions, unbounded coordinates ---- *)
+Theorem C11_or_sem : forall a b, WF a -> WF b ->
+  forall x y, rgn_mem (rgn_or a b) x y = rgn_mem a x y || rgn_mem b x y.
+Proof. exact rgn_or_mem. Qed.
+
+Theorem C11_and_sem : forall a b, WF a -> WF b ->
+  forall x y, rgn_mem (fst (rgn_and a b)) x y = rgn_mem a x y && rgn_mem b x y.
+Proof. exact rgn_and_mem. Qed.
+
+Theorem C11_sub_sem : forall a b, WF a -> WF b ->
+  forall x y, rgn_mem (fst (rgn_sub a b)) x y = rgn_mem a x y && negb (rgn_mem b x y).
+Proof. exact rgn_sub_mem. Qed.
+
+Theorem C11_ops_wf : forall a b, WF a -> WF b ->
+  WF (rgn_or a b) /\ WF (fst (rgn_and a b)) /\ WF (fst (rgn_sub a b)).
+Proof.
+  exact (fun a b Ha Hb => conj (rgn_or_wf a b Ha Hb) (conj (rgn_and_wf a b Ha Hb) (rgn_sub_wf a b Ha Hb))).
+Qed.
+
+(* the booleans returned by intersect / subtract say whether the result is non-empty,
+   and "empty" means "covers no pixel" *)
+Theorem C11_bool_results : forall a b, WF a -> WF b ->
+  snd (rgn_and a b) = negb (rgn_is_empty (fst (rgn_and a b))) /\
+  snd (rgn_sub a b) = negb (rgn_is_empty (fst (rgn_sub a b))).
+Proof. exact (fun a b Ha Hb => conj (rgn_and_bool a b Ha Hb) (rgn_sub_bool a b Ha Hb)). Qed.
+
+Theorem C11_empty_sem : forall r, WF r ->
+  (rgn_is_empty r = true <-> forall x y, rgn_mem r x y = false).
+Proof. exact is_empty_sem. Qed.
+
+Theorem C11_create_offset_wf : forall x1 y1 x2 y2 r dx dy,
+  (x1 < x2 -> y1 < y2 -> WF (rgn_create_rect x1 y1 x2 y2)) /\ (WF r -> WF (rgn_offset r dx dy)).
+Proof. exact (fun x1 y1 x2 y2 r dx dy => conj (create_rect_wf x1 y1 x2 y2) (offset_wf r dx dy)). Qed.
+
+(* iteration in any of the four directions: every pixel of the region lies in exactly one
+   of the iterated rectangles and every other pixel in none (pairwise disjoint, union = region);
+   every rectangle is non-empty *)
+Theorem C11_iter_partition : forall revX revY r x y, WF r ->
+  length (filter (fun rc => rect_mem rc x y) (rgn_iter revX revY r)) =
+  if rgn_mem r x y then 1%nat else 0%nat.
+Proof. exact iter_partition. Qed.
+
+Theorem C11_iter_nonempty : forall revX revY r, WF r ->
+  Forall (fun '(x1, y1, x2, y2) => x1 < x2 /\ y1 < y2) (rgn_iter revX revY r).
+Proof. exact iter_nonempty. Qed.
+
+Theorem C11_bbox_encloses : forall r x y, WF r ->
+  WF (rgn_bbox r) /\ (rgn_mem r x y = true -> rgn_mem (rgn_bbox r) x y = true).
+Proof. exact (fun r x y W => conj (bbox_wf r W) (bbox_sup r x y W)). Qed.
+
+(* non-vacuity: a concrete non-trivial well-formed region (an L shape) *)
+Example C11_nonvacuous :
+  WF (rgn_or (rgn_create_rect 0 0 10 4) (rgn_create_rect 0 4 3 9)) /\
+  rgn_count (rgn_or (rgn_create_rect 0 0 10 4) (rgn_create_rect 0 4 3 9)) = 2.
+Proof.
+  split; [apply rgn_or_wf; apply create_rect_wf; lia|reflexivity].
+Qed.
+
+(* the code merges only around the cursor: equal pixel sets may have different span structures
+   (so no theorem speaks about structural equality) *)
+Example C11_noncanonical_example :
+  rgn_or (rgn_create_rect 0 0 5 1) (rgn_create_rect 5 0 10 1) = [(0, 1, [(0, 5, tt); (5, 10, tt)])] /\
+  rgn_or (rgn_create_rect 0 0 10 1) (rgn_create_rect 0 0 10 1) = [(0, 1, [(0, 10, tt)])].
+Proof. split; reflexivity. Qed.
+
+(* sraRgnCreateRect does not reject degenerate rectangles: the result is "not empty" although it
+   covers no pixel (callers must not pass them; see C03) *)
+Theorem C11_degenerate_refuted :
+  exists x1 y1 x2 y2, rgn_is_empty (rgn_create_rect x1 y1 x2 y2) = false /\
+                      forall x y, rgn_mem (rgn_create_rect x1 y1 x2 y2) x y = false.
+Proof.
+  exists 3, 0, 3, 5. split; [reflexivity|]. intros x y. rewrite create_rect_mem. unfold rect_mem. lia.
+Qed.
